@@ -229,3 +229,62 @@ def run_lexonly(chk, F, rid="R-LEXONLY"):
                        (fn["q"], ", ".join(sorted(set(others)))), "%s:%s" % (fn["file"], fn["line"]))
     if n < 3:
         raise AnalysisBroken("only %d parsed text variables found in the XML reader" % n)
+
+
+def run_commentlang(chk, L, rid="R-COMMENTLANG", maxlen=5):
+    """A block comment is `/*`, any text, and ends at the FIRST `*/`.  Decided by exhaustive simulation of the scanner
+    model (parsed patterns, longest match, rule order, BEGIN assignments read from the actions) on every string over
+    a small alphabet up to a bounded length: after `/*` + w the scanner must be back in INITIAL exactly when w contains
+    `*/`, and the position where it leaves comment mode must be right after the first `*/`."""
+    import itertools
+    from ..flexsim import FlexModel
+    chk.rule(rid, "scanner model, all strings w over {*, /, x, E, newline} up to length %d: scanning `/*` + w "
+                  "leaves comment mode exactly after the first `*/` of w (and not at all if there is none); a `//` "
+                  "comment ends exactly at the first line feed" % maxlen)
+    M = FlexModel(L)
+    if "comment" not in M.sc_names:
+        raise AnalysisBroken("no <comment> start condition in lexer.l")
+    sigma = "*/xE\n"
+    n = bad = 0
+    first_bad = None
+    for ln in range(0, maxlen + 1):
+        for tup in itertools.product(sigma, repeat=ln):
+            w = "".join(tup)
+            text = "/*" + w
+            trace, sc = M.run(text)
+            n += 1
+            want_end = w.find("*/")
+            # position at which the scanner returned to INITIAL (first time after the opener)
+            left = None
+            for pos, r, e, s2 in trace[1:]:
+                if s2 == "INITIAL":
+                    left = e - 2        # index in w just after the closing `*/`
+                    break
+            exp = None if want_end < 0 else want_end + 2
+            if left != exp:
+                bad += 1
+                if first_bad is None:
+                    first_bad = (text, exp, left)
+    chk.ob(rid, "block-comment", bad == 0,
+           "the scanner does not end a block comment at its first `*/`: e.g. after %r comment mode should end at offset "
+           "%s of the comment text but ends at %s (%d of %d strings): text after such a comment is swallowed, or text "
+           "inside it is scanned" % ((first_bad or ("", 0, 0)) + (bad, n)), "src/lexer.l")
+    # line comments
+    n2 = bad2 = 0
+    fb = None
+    for ln in range(0, 6):
+        for tup in itertools.product("/*x \n", repeat=ln):
+            w = "".join(tup)
+            text = "//" + w + "\nx"
+            trace, sc = M.run(text)
+            n2 += 1
+            # the first match must cover `//` + everything up to (not including) the first line feed
+            pos, r, e, s2 = trace[0]
+            exp = 2 + (w.find("\n") if "\n" in w else len(w))
+            if e != exp or s2 != "INITIAL":
+                bad2 += 1
+                fb = fb or (text, exp, e)
+    chk.ob(rid, "line-comment", bad2 == 0,
+           "a `//` comment does not end exactly at the first line feed: %r should cover %s characters, covers %s" %
+           (fb or ("", 0, 0)), "src/lexer.l")
+    chk.analysed[rid] = {"strings_simulated": n + n2, "alphabet": sigma, "max_length": maxlen}
